@@ -14,10 +14,17 @@ for p in props:
         m = json.load(open(d + '/meta.json'))
         files = subprocess.run("grep '^+++ ' %s/patch.diff | sed 's#+++ b/##'" % d, shell=True, capture_output=True, text=True).stdout.split()
         earlier.append("- (%s) %s" % (", ".join(files), m['needs_to_manifest']))
+    over = p['quantifier']['over']
+    focus = ''
+    if wave >= 'w11':
+        if 'schedules' in over or 'fault_sequences' in over:
+            focus = "FOCUS FOR THIS ATTEMPT: the property quantifies over schedules / fault timings. Prefer a change whose breakage needs a particular INTERLEAVING of goroutines or a fault/cancellation/time-out landing at a particular moment (a narrowed or split critical section, a check-then-act window, a flag read outside its lock, a wake-up that can be lost, a goroutine that outlives its owner, a timer that is stopped or reset at the wrong moment) - something a sequential test of the same operations would never show. Your demonstration may force the interleaving with hooks, callbacks or channels that exist in the code or in your test's fakes."
+        else:
+            focus = "FOCUS FOR THIS ATTEMPT: prefer a change that needs a MULTI-STEP history (three or more operations in a particular order, e.g. state left behind by an earlier rejected / no-op / repeated operation), or two code sites that each look fine alone but disagree, or an object that is reused or shared between calls (aliasing, caching, memoisation keyed too coarsely) - rather than a single unusual input."
     prop_text = json.dumps({k: p[k] for k in ('id','title','statement','quantifier','why_tests_cant','anchors') if k in p}, indent=1)
     txt = f"""You are helping to evaluate a verification framework for the Go repository openconfig/gnmi (reference gNMI implementation: client library, CLI, caching collector with a timestamped path-tree cache and a Subscribe server). You have your OWN scratch git worktree of the repository at {wt} (a detached checkout of the current HEAD). Work ONLY inside {wt} and write your results to {out}/ . Never touch /repo or /verif and do not read anything under /verif.
 
-Environment: no network. In every shell call first run: export GOFLAGS=-mod=mod GOPROXY=off GOSUMDB=off GOTOOLCHAIN=local . If a go command modifies go.sum in the worktree, run `git checkout go.sum` before producing the patch.
+Environment: no network. In every shell call first run: export GOFLAGS=-mod=mod GOPROXY=off GOSUMDB=off GOTOOLCHAIN=local . NEVER use `git stash` (the stash is shared by every worktree of the repository and other people work in sibling worktrees): to run something without your change use `git diff > /tmp/seed-out/.../wip.diff; git checkout -- .; ...; git apply wip.diff`. If a go command modifies go.sum in the worktree, run `git checkout go.sum` before producing the patch.
 
 Here is ONE semantic property that the repository is supposed to satisfy (JSON record):
 
@@ -26,6 +33,8 @@ Here is ONE semantic property that the repository is supposed to satisfy (JSON r
 YOUR TASK: write a realistic change to the non-test Go source of openconfig/gnmi (in your worktree) that BREAKS this property, while (1) the repository still compiles (`go build ./...`), (2) the complete existing test suite still passes, unedited (`go test -vet=off -count=1 ./...` - run it; if a test fails only sporadically also on the unchanged tree, e.g. subscribe.TestGNMICoalescedDupCount under load, re-run it to make sure it is not your change), and (3) you can demonstrate the breakage with a NEW test file (or small program) that FAILS with your change and PASSES without it (run both ways; it must be deterministic or close to it: if it needs an interleaving, force it with channels/hooks that exist in the code, callbacks, or by looping enough that it fails reliably; say how reliably).
 
 The change must look like something a developer could plausibly commit (an optimisation, a refactoring, a 'simplification', a caching shortcut, a narrowed lock, a reordered pair of statements, an off-by-one in a boundary, a forgotten case of a new code path, two sites that each look fine alone but disagree), NOT sabotage with an obvious marker. It must need something SPECIFIC to manifest - a particular interleaving of goroutines, a fault/error at a particular point, a multi-step sequence of operations, an unusual-but-legal input shape or configuration, a particular relation between timestamps/values, reuse of one object twice - rather than something ordinary use would expose at once. Subtle is better than blatant; a change that needs the conjunction of two conditions is better still. Do not edit, delete or skip existing tests. Do not add build tags. Keep the change small (typically 1-30 changed lines).
+
+{focus}
 
 Earlier independent attempts on this same property already produced the changes below (file touched, and what the breakage needs in order to manifest). Produce something DIFFERENT: a different mechanism AND a different code site or clause of the property, ideally a different category of defect and an input/schedule dimension none of them used:
 {chr(10).join(earlier) if earlier else '- (none yet)'}
